@@ -4,7 +4,7 @@ from pyvc import run
 
 KEEP = ("right after a flag", "no pending escape", "unstuff(raw)", "octets == raw", "2047", "frame_inv", "hunt mode", "collected octets", "pre:", "inv-entry", "dec#", "consumes at least", "left unconsumed")
 def build(repo, tier, seed):
-    tasks = M.hdlc_tasks(repo, None, True) + [("p1reader", DM.group_p1reader, (repo,))]
+    tasks = M.hdlc_tasks(repo, None, True) + [("p1reader", DM.group_p1reader, (repo,))] + [(f"segment lemma {cfg}", M.group_segment_lemma, (repo, cfg)) for cfg in M.CONFIGS if cfg[0]]
     r = M.groups_result(tasks, select=None)
     r.functions = sorted(set(M.READER_FUNCS) | set(DM.P1_FUNCS))
     r.level = "other"
